@@ -186,6 +186,21 @@ Ltac cnt2 := simpl; rewrite ?count_app; simpl; rewrite ?Nat.eqb_refl; try lia.
 Ltac ref_leaf Inv :=
   eapply ref_on_same; [| | |exact Inv]; [unfold getN; same_ref_tac | intros n'; cnt2 | intros n'; cnt2].
 
+Lemma inv_step_ref : forall s n k s1 st sp others F0,
+  inv_step s n k = Some (s1, st, sp) ->
+  (forall m, count (cleanup_of m) F0 = count (cleanup_of m) (k ++ others)) ->
+  (forall m, count (relpend m) F0 <= count (relpend m) (k ++ others)) ->
+  ref_on (s_nodes s) F0 -> ref_on (s_nodes s1) (st ++ others ++ concat sp).
+Proof.
+  intros s n k s1 st sp others F0 H Hc Hr Inv. unfold inv_step in H.
+  destruct (Nat.ltb n (length (s_nodes s))); [|discriminate].
+  destruct (n_inv (getN s n)).
+  - inversion H; subst; clear H. eapply ref_on_same; [apply same_ref_refl | | | exact Inv]; intros m; simpl; rewrite ?app_nil_r; auto.
+  - destruct (n_hinv (getN s n)) as [r|]; [destruct (r_spawn (getr s r))|]; inversion H; subst; clear H; simpl;
+      unfold g_inv_mark; (eapply ref_on_same; [ | | | exact Inv]; [unfold getN; same_ref_tac | |]); intros m;
+      specialize (Hc m); specialize (Hr m); simpl; rewrite ?count_app in *; simpl; lia.
+Qed.
+
 Lemma step_top_ref : forall s f rest arg s1 st sp others,
   step_top s f rest arg = Some (s1, st, sp) ->
   ref_on (s_nodes s) (f :: rest ++ others) ->
@@ -195,13 +210,11 @@ Proof.
   unfold step_top in H.
   destruct f; cbv beta iota zeta in H.
   - (* FInvList *)
-    destruct (memb arg l && Nat.ltb arg (length (s_nodes s))); [|discriminate].
-    destruct (n_inv (getN s arg)).
-    + inversion H; subst; clear H. ref_leaf Inv.
-    + destruct (n_hinv (getN s arg)) as [r|]; [destruct (r_spawn (getr s r))|];
-        inversion H; subst; clear H; simpl; unfold g_inv_mark; ref_leaf Inv.
+    destruct (memb arg l); [|discriminate].
+    eapply inv_step_ref; [exact H | | | exact Inv]; intros m; cnt2.
   - inversion H; subst; clear H. ref_leaf Inv.
-  - (* FRelEnter *) inversion H; subst; clear H. ref_leaf Inv.
+  - (* FRelEnter *)
+    eapply inv_step_ref; [exact H | | | exact Inv]; intros m; cnt2.
   - (* FRelMark *)
     destruct (n_rel (getN s n)) eqn:Rl.
     + inversion H; subst; clear H.
@@ -344,6 +357,7 @@ Proof.
     inversion H; subst; clear H. simpl.
     eapply ref_on_same; [apply same_ref_refl | | | exact Inv]; intros n'; cnt2; destruct (r_comp (getr s r)); simpl; lia.
   - (* FArm *)
+    destruct (negb (n_inv (getN s c)) && match n_hinv (getN s c) with Some _ => true | None => false end); [discriminate|].
     destruct (g_handle_inv (s_nodes s) c r) as [g fired] eqn:GH. inversion H; subst; clear H. simpl.
     unfold g_handle_inv in GH. destruct (n_inv (getn (s_nodes s) c)); inversion GH; subst; clear GH;
       (eapply ref_on_same; [ | | | exact Inv]; [same_ref_tac | intros n'; cnt2 | intros n'; cnt2]).
